@@ -25,17 +25,21 @@
 (*  C04.not_delivered_intact      unaltered packet between connected sides  *)
 (*                                not handed to the receiver (or send fails)*)
 (*  C04.tampered_accepted         altered packet handed to a receiver       *)
+(*  C04.connected_side_gave_up    a connected transport left `connected`    *)
+(*                                although nobody closed either side (e.g.  *)
+(*                                because of a packet altered in transit)   *)
 (*  C04.spurious_delivery         receiver got something that was not sent  *)
 (*                                to it (wrong content, kind, duplicate)    *)
 EXTENDS Dtls, Json, IOUtils, TLCExt, SequencesExt
 
 VARIABLES tid, l, verdict, done,
           pk,       \* packet id -> [from, kind, data, sok, opt, rel, tam, must, dl]
-          lastRel   \* side -> id of the packet released to it last (0 = none)
+          lastRel,  \* side -> id of the packet released to it last (0 = none)
+          stopped   \* sides on which the driver called stop()
 
 Traces == ndJsonDeserialize(IOEnv.TRACE_FILE)
 
-tvars == <<vars, tid, l, verdict, done, pk, lastRel>>
+tvars == <<vars, tid, l, verdict, done, pk, lastRel, stopped>>
 
 TraceInit ==
   /\ tid \in 1..Len(Traces)
@@ -49,11 +53,13 @@ TraceInit ==
   /\ l = 1 /\ verdict = "ok" /\ done = FALSE
   /\ pk = <<>>
   /\ lastRel = [s \in Sides |-> 0]
+  /\ stopped = {}
 
 Steps == Traces[tid].steps
 
 Unused == UNCHANGED <<cfg, keys, net, sent, delivered, n, ntam, act>>
 KeepJ == UNCHANGED <<state, conn, pk, lastRel>>
+LinkCut == "env" \in DOMAIN Traces[tid] /\ Traces[tid].env.kind = "cut"
 
 MinOf(S) == CHOOSE x \in S : \A y \in S : x <= y
 
@@ -63,10 +69,13 @@ Overdue == {i \in DOMAIN pk : pk[i].rel /\ pk[i].must /\ ~pk[i].opt /\ ~pk[i].dl
 Consume ==
   /\ ~done /\ verdict = "ok" /\ l <= Len(Steps)
   /\ l' = l + 1 /\ UNCHANGED <<tid, done>> /\ Unused
+  /\ stopped' = IF Steps[l].op = "close" THEN stopped \cup {Steps[l].side} ELSE stopped
   /\ LET ev == Steps[l] IN
      CASE ev.op = "state" ->
             IF ev.st = "connected" /\ ~ShouldConnect(cfg, ev.side)
               THEN verdict' = "C04.connect_policy" /\ KeepJ
+            ELSE IF ev.st \in {"closed", "failed"} /\ state[ev.side] = "connected" /\ stopped = {} /\ ~LinkCut
+              THEN verdict' = "C04.connected_side_gave_up" /\ KeepJ
             ELSE /\ state' = [state EXCEPT ![ev.side] = ev.st]
                  /\ conn' = [conn EXCEPT ![ev.side] = @ \/ ev.st = "connected"]
                  /\ UNCHANGED <<verdict, pk, lastRel>>
@@ -123,7 +132,7 @@ Finish_ ==
   /\ ~done /\ (verdict # "ok" \/ l > Len(Steps))
   /\ done' = TRUE
   /\ PrintT(<<"RESULT", Traces[tid].id, verdict, l - 1>>)
-  /\ UNCHANGED <<vars, tid, l, verdict, pk, lastRel>>
+  /\ UNCHANGED <<vars, tid, l, verdict, pk, lastRel, stopped>>
 
 TraceNext == Consume \/ Finish_
 
